@@ -200,13 +200,11 @@ fn is_special_key(key: &str) -> bool {
         || key == "node_ref"
 }
 
-/// Whether text children of this element are HTML-escaped. Must agree with
-/// `ElementType::ESCAPE_CHILDREN` of the element in tachys.
+/// Whether text children of this element are HTML-escaped. Must agree with what tachys
+/// does for the element: `ElementType::ESCAPE_CHILDREN`, and `<textarea>`, whose content
+/// is escaped as a whole.
 fn escapes_children(el_name: &str) -> bool {
-    el_name != "script"
-        && el_name != "style"
-        && el_name != "textarea"
-        && el_name != "noscript"
+    el_name != "script" && el_name != "style" && el_name != "noscript"
 }
 
 enum Item<'a, T> {
